@@ -42,7 +42,9 @@ def generate(rng, cfg: Dict) -> Dict:
         else:
             k = c.weighted([("assign", 3), ("self_assign", 2), ("ior", 2.5), ("add", 3), ("update", 2), ("gc", 0.4), ("sweep", 0.4)])
         if k in ("assign", "iadd", "extend", "ior", "update"):
-            ops.append([k, some(0, 4)])
+            # Python accepts any iterable for extend / update / += and any set-like for |=
+            arg = c.weighted([("same", 5), ("tuple", 1), ("generator", 2), ("iterator", 1), ("other", 1)]) if k in ("extend", "update", "iadd") else "same"
+            ops.append([k, some(0, 4), arg])
         elif k in ("append", "add"):
             ops.append([k, c.pick(elems)])
         elif k in ("insert", "setitem"):
@@ -66,6 +68,20 @@ def execute(scenario: Dict) -> Dict:
 
     def objs(serials):
         return [pop.objs[s] for s in serials if s in pop.objs]
+
+    def as_argument(values, arg_kind, default):
+        """The same elements handed over as another kind of iterable."""
+        if arg_kind == "tuple":
+            return tuple(values)
+        if arg_kind == "generator":
+            counters.inc("fault.one_shot_argument")
+            return (v for v in values)
+        if arg_kind == "iterator":
+            counters.inc("fault.one_shot_argument")
+            return iter(list(values))
+        if arg_kind == "other":
+            return set(values) if default is list else list(values)
+        return default(values)
 
     initial = [s for s in scenario.get("initial", []) if s in pop.objs]
     try:
@@ -140,7 +156,11 @@ def execute(scenario: Dict) -> Dict:
                     nontrivial = nontrivial or len(model) >= 1
                 elif k == "iadd":
                     vals = [s for s in op[1] if s in pop.objs]
-                    exec(f"o.{field} += xs", {"o": owner, "xs": objs(vals)})
+                    arg_kind = op[2] if len(op) > 2 else "same"
+                    if arg_kind == "other":
+                        vals = list(dict.fromkeys(vals))  # a set argument: order of a set is not defined, keep it well defined
+                        arg_kind = "same" if len(vals) > 1 else "other"
+                    exec(f"o.{field} += xs", {"o": owner, "xs": as_argument(objs(vals), arg_kind, list)})
                     model = model + vals
                     ever.update(vals)
                     nontrivial = True
@@ -158,7 +178,11 @@ def execute(scenario: Dict) -> Dict:
                     ever.add(op[1])
                 elif k == "extend":
                     vals = [s for s in op[1] if s in pop.objs]
-                    getattr(owner, field).extend(objs(vals))
+                    arg_kind = op[2] if len(op) > 2 else "same"
+                    if arg_kind == "other":
+                        vals = list(dict.fromkeys(vals))
+                        arg_kind = "same" if len(vals) > 1 else "other"
+                    getattr(owner, field).extend(as_argument(objs(vals), arg_kind, list))
                     model.extend(vals)
                     ever.update(vals)
                 elif k == "insert":
@@ -183,7 +207,7 @@ def execute(scenario: Dict) -> Dict:
                     ever.add(op[1])
                 elif k == "update":
                     vals = [s for s in op[1] if s in pop.objs]
-                    getattr(owner, field).update(set(objs(vals)))
+                    getattr(owner, field).update(as_argument(objs(vals), op[2] if len(op) > 2 else "same", set))
                     model |= set(vals)
                     ever.update(vals)
                 else:
